@@ -8,10 +8,7 @@ package http2_test
 
 import (
 	"context"
-	"encoding/json"
-	"os"
 	"crypto/tls"
-	"errors"
 	"fmt"
 	"io"
 	"log"
@@ -529,7 +526,10 @@ func c14Run(c c14Case, r *vp.Rec) error {
 			mayConnErr = true
 		}
 	}
-	if c.Srv.ReadBuf > 0 && !mayConnErr {
+	// (with Start == 2 the bound towards the server is applied when the server starts:
+	// before that nobody drains the pipe, a second request would wait for wmu behind a
+	// writer blocked on the full pipe, and synctest.Wait below would never return)
+	if c.Srv.ReadBuf > 0 && !mayConnErr && c.Start != 2 {
 		srvEnd.SetReadBufferSize(c.Srv.ReadBuf)
 	}
 	if c.Cli.ReadBuf > 0 && !mayConnErr {
@@ -692,7 +692,10 @@ func c14Run(c c14Case, r *vp.Rec) error {
 		}()
 	}
 	if c.Start == 2 {
-		synctest.Wait() // the client's first flight is written (or blocked on the pipe)
+		synctest.Wait() // the client's first flight is written
+		if c.Srv.ReadBuf > 0 && !mayConnErr {
+			srvEnd.SetReadBufferSize(c.Srv.ReadBuf)
+		}
 		startServer()
 	}
 
@@ -1054,8 +1057,6 @@ func c14Judge(c *c14Case, srvObs []c14SrvObs, cliObs []c14CliObs, stray []string
 	return nil
 }
 
-var _ = errors.New
-
 // c14Known classifies cases that match a recorded finding (see KNOWN_FINDINGS.json).
 func c14Known(c c14Case) string {
 	if c.Start != 2 {
@@ -1087,13 +1088,6 @@ func c14Known(c c14Case) string {
 
 func TestVP_C14(t *testing.T) {
 	vp.Run(t, vp.Spec[c14Case]{ID: "C14", CrashFile: true, Gen: c14Gen, Known: c14Known, Prop: func(c c14Case, r *vp.Rec) error {
-		t0 := time.Now()
-		defer func() {
-			if d := time.Since(t0); d > 150*time.Millisecond && os.Getenv("C14_SLOW") != "" {
-				j, _ := json.Marshal(c)
-				fmt.Fprintf(os.Stderr, "SLOW %v %s\n", d, j)
-			}
-		}()
 		return c14Bubble(t, func() error { return c14Run(c, r) })
 	}})
 }
